@@ -212,9 +212,14 @@ MUX_RULE = ("scenario = one real Session (server or client role) against a scrip
 
 
 def check_C01(pid, tier, seed, verdict):
-    return _mux_check(pid, tier, seed, verdict, MUX_RULE,
+    cov, assumptions = _mux_check(pid, tier, seed, verdict, MUX_RULE + "; plus (end to end, real time) application connections "
+                      "through the SOCKS5 / HTTP front-ends, the real Client, TLS, the real server and an echoing target with "
+                      "position-coded chunks of 1..70000 bytes: the echo must be the bytes sent",
                       ["payload bytes are position-coded (keyed generator); equality with the generator is judged in the harness",
                        "virtual time: 'nothing in flight' = the paused-clock runtime is idle"])
+    pext = _protocol_pass(pid, tier, seed, verdict, [])
+    cov.update(pext)
+    return cov, assumptions
 
 
 def check_C02(pid, tier, seed, verdict):
@@ -335,11 +340,11 @@ def _protocol_pass(pid, tier, seed, verdict, mcs):
     property's check or to behaviour outside the list)."""
     mcs.append(mc_must_hold(pid, verdict, "MC_Protocol.tla", "MC_Protocol.cfg" if tier == "thorough" else "MC_Protocol_small.cfg", workers=8))
     for d in ("SynOvertaken", "PshAfterFin", "HbEchoTwice", "SynackTwice", "DataBeforeSynack"):
-        if tier == "thorough" or d in PROTO_DEVS.get(pid, ()):
+        if (tier == "thorough" and pid != "C01") or d in PROTO_DEVS.get(pid, ()):
             mcs.append(mc_must_fail(pid, "MC_Protocol.tla", f"MC_Protocol_dev_{d}.cfg", workers=4))
     prun = V.run_harness(pid, "proto", seed, tier)
     pres = V.run_trace(pid, "Trace_Protocol.tla", "Trace_Protocol.cfg", prun["trace"])
-    mine = lambda b: b["why"].startswith(pid + ":") or not b["why"].startswith(("C08:", "C10:", "C11:", "ext:"))
+    mine = lambda b: b["why"].startswith(pid + ":") or not b["why"].startswith(("C01:", "C08:", "C10:", "C11:", "ext:"))
     drift = [b for b in pres["bad"] if not mine(b)]
     pres = dict(pres)
     pres["bad"] = [b for b in pres["bad"] if mine(b)]
